@@ -39,7 +39,7 @@ IDENT_POOL = [i for i in dict.fromkeys(IDENT_POOL) if i not in KEYWORDS and i no
 NASTY_NAMES = ["", " ", "  lead", "trail ", "a b", "\"", "\\", "\\n", "\n", "\t", "{}", "{0}", "{:?}", "{{", "}",
                "%s", "'", "\0", "a\0b", "é", "é", "名前", "🦀", "A*", "a-b", "a::b", "#", "r#\"x\"#",
                "​", "﻿", "ß", "SS", "İ", "i̇", "x" * 300, "\r\n", "\r", "null", "None", "Self",
-               " ", "‮", "\x7f", "\x1b[0m"] + ["n" * k for k in (7, 8, 9, 15, 16, 17, 31, 32, 33, 63, 64, 65, 127, 128, 255, 256, 257)] + ["é" * k for k in (4, 8, 16)]
+               " ", "‮", "\x7f", "\x1b[0m"] + ["n" * k for k in (7, 8, 9, 15, 16, 17, 31, 32, 33, 63, 64, 65, 127, 128, 255, 256, 257)] + ["é" * k for k in (4, 8, 16)] + ["r#async", "r#", "r#type", "b'x'", "c\"x\""]
 
 GAPS = [1, 1, 1, 2, 2, 3, 7, 100, 1000, 10 ** 6, 2 ** 31, 2 ** 32, 2 ** 40, 2 ** 62,
         # multiples and neighbours of the type sizes (arithmetic done modulo a narrower width)
@@ -501,7 +501,7 @@ def configs(draw, spec, force=(), forbid=(), p_on=0.5, params=True, split=True, 
                         cands = [""]
                 ps.append(["vis", draw(st.sampled_from(cands))])
         if params and struct_names and f in E.STRUCT_FEATURES and chance(draw, 0.2):
-            sn = draw(st.sampled_from(["My%sStruct" % f.capitalize(), "It_%s" % f, "Σ%s" % f.capitalize()] + fn_names[-1:] + ["MIN", f]))
+            sn = draw(st.sampled_from(["My%sStruct" % f.capitalize(), "It_%s" % f, "Σ%s" % f.capitalize()] + fn_names[-1:]))
             # a struct (type namespace, module level) may share its name with an associated fn / const of the enum
             if sn not in used_names or sn in fn_names:
                 used_names.add(sn)
